@@ -16,6 +16,13 @@ CHECKS = {
     ),
 }
 
+CHECKS["C04"] = dict(
+    technique="reference-model monitor: protocol-boundary log + node-tree snapshot of the real runtime vs reference renderer over the abstract template",
+    text="Generated abstract templates (all element kinds, attribute families x value kinds, if/for/template/include/slot) are printed as WXML with syntactic variation, compiled by the SUT and executed on the real runtime in creation mode; the flattened node tree and the per-element channel values recorded at the protocol boundary are compared with a renderer written from the documentation. Held on the templates x data environments observed.",
+    note="Trusted: the reference renderer (Appendix B), the type-stripping loader, the JS engine. Templates on which the reference throws are skipped and counted. Components are native nodes; slot-value scopes are covered by C05/C06.",
+    ref="2/C04",
+)
+
 NOT_YET = {}
 
 
